@@ -80,6 +80,8 @@ type World struct {
 	depKey map[string]*DepSpec // unique key hex -> deposit
 }
 
+var DebugPanics bool
+
 var (
 	cfgOnce sync.Once
 	cfg     *config.Custom
@@ -140,20 +142,12 @@ func (d *DepSpec) RenderText() []byte {
 
 func (d *DepSpec) ident() string { return fmt.Sprintf("%s|%s|%d", d.Chain, d.TxID, d.Index) }
 
-func NewWorld(h *History) (*World, error) {
-	dir, err := os.MkdirTemp("", "verif-c03-")
-	if err != nil {
-		return nil, err
-	}
-	st, err := storage.NewBadgerStore(loadConfig(), dir)
-	if err != nil {
-		os.RemoveAll(dir)
-		return nil, err
-	}
-	w := &World{H: h, dir: dir, Store: st, depKey: map[string]*DepSpec{}}
+// BuildWorld builds the transactions (hashes, keys) without opening a store.
+func BuildWorld(h *History) (*World, error) {
+	w := &World{H: h, depKey: map[string]*DepSpec{}}
+	var err error
 	w.Exc, err = GhostExceptions()
 	if err != nil {
-		w.Close()
 		return nil, err
 	}
 	for i := 0; i < h.NKeys; i++ {
@@ -162,10 +156,6 @@ func NewWorld(h *History) (*World, error) {
 	n := len(h.Ops) + len(h.Conc) + 1
 	for i := 0; i < n; i++ {
 		w.nodes = append(w.nodes, crypto.Blake3Hash([]byte(fmt.Sprintf("verif-c03-node-%d", i))))
-	}
-	if err := st.VerifC03Setup(w.nodes); err != nil {
-		w.Close()
-		return nil, err
 	}
 	for i := range h.Txs {
 		ver := w.build(&h.Txs[i])
@@ -190,11 +180,47 @@ func NewWorld(h *History) (*World, error) {
 	return w, nil
 }
 
+// NewWorld builds the world on a fresh real Badger store in a temp directory.
+func NewWorld(h *History) (*World, error) {
+	w, err := BuildWorld(h)
+	if err != nil {
+		return nil, err
+	}
+	// a memory-backed directory when the machine has one: Badger runs with
+	// SyncWrites, and fsync on a disk dominates the run otherwise
+	base := ""
+	if st, err := os.Stat("/dev/shm"); err == nil && st.IsDir() && os.Getenv("VERIF_C03_DISK") == "" {
+		base = "/dev/shm"
+	}
+	dir, err := os.MkdirTemp(base, "verif-c03-")
+	if err != nil {
+		return nil, err
+	}
+	st, err := storage.NewBadgerStore(loadConfig(), dir)
+	if err != nil {
+		os.RemoveAll(dir)
+		return nil, err
+	}
+	w.dir, w.Store = dir, st
+	if err := st.VerifC03Setup(w.nodes); err != nil {
+		w.Close()
+		return nil, err
+	}
+	return w, nil
+}
+
+func EmptyDump() *Dump {
+	return &Dump{UTXO: map[string]string{}, Dep: map[string]string{}, Mint: map[uint64]MintRec{},
+		Body: map[string]bool{}, Final: map[string]bool{}, Ghost: map[string]string{}}
+}
+
 func (w *World) Close() {
 	if w.Store != nil {
 		w.Store.Close()
 	}
-	os.RemoveAll(w.dir)
+	if w.dir != "" {
+		os.RemoveAll(w.dir)
+	}
 }
 
 func (w *World) slot(r SlotRef) (crypto.Hash, uint) {
@@ -233,7 +259,11 @@ func (w *World) build(t *TxSpec) *common.VersionedTransaction {
 			tx.AddInput(h, i)
 		}
 	case "deposit":
-		tx.Inputs = []*common.Input{{Deposit: t.Dep.Data()}}
+		// an asset of its own per chain, so that the stored asset info never
+		// disagrees with the deposit (asset bookkeeping is not part of C03/C04)
+		d := t.Dep.Data()
+		tx.Asset = crypto.Sha256Hash(append(d.Chain[:], []byte(d.AssetKey)...))
+		tx.Inputs = []*common.Input{{Deposit: d}}
 	case "mint":
 		tx.Inputs = []*common.Input{{Mint: &common.MintData{Group: "UNIVERSAL", Batch: t.Batch, Amount: common.NewInteger(uint64(t.Amount))}}}
 	default:
@@ -288,8 +318,11 @@ func flatten(outs [][]int) []int {
 // Exec runs one op on the real store; snapSeq numbers the snapshot a finalize uses.
 func (w *World) Exec(op *OpSpec, snapSeq int) string {
 	var err error
-	pan, _ := vh.Catch(func() { err = w.exec(op, snapSeq) })
+	pan, pv := vh.Catch(func() { err = w.exec(op, snapSeq) })
 	if pan {
+		if DebugPanics {
+			fmt.Printf("panic in %s: %v\n", op.Op, pv)
+		}
 		return "panic"
 	}
 	if err != nil {
@@ -439,45 +472,69 @@ func (a *Dump) String() string {
 
 // ---- Coq terms --------------------------------------------------------------
 
+// Tbl renames the 32-byte values of a history: distinct values are numbered
+// 1, 2, 3, ... in order of first appearance, the zero hash stays 0 and the k-th
+// hard-coded exception hash is written (exc k).  The model uses these values
+// only through equality tests (and the tests against 0 and the exceptions).
 type Tbl struct {
-	idx  map[string]int
-	list []string
+	idx map[string]int
+	exc map[string]int
 }
 
-func NewTbl() *Tbl { return &Tbl{idx: map[string]int{}} }
+func NewTbl() *Tbl { return &Tbl{idx: map[string]int{}, exc: map[string]int{}} }
+
+func (w *World) NewTbl() *Tbl {
+	t := NewTbl()
+	for i, e := range w.Exc {
+		if _, dup := t.exc[hx(e)]; !dup {
+			t.exc[hx(e)] = i
+		}
+	}
+	return t
+}
 
 func (t *Tbl) H(hexv string) string {
+	if hexv == zeroHex {
+		return "0"
+	}
+	if k, ok := t.exc[hexv]; ok {
+		return fmt.Sprintf("(exc %d)", k)
+	}
 	i, ok := t.idx[hexv]
 	if !ok {
-		i = len(t.list)
+		i = len(t.idx) + 1
 		t.idx[hexv] = i
-		t.list = append(t.list, hexv)
 	}
-	return fmt.Sprintf("(h %d%%nat)", i)
+	return fmt.Sprintf("%d", i)
 }
 
 func (t *Tbl) HH(h crypto.Hash) string { return t.H(hx(h[:])) }
 func (t *Tbl) HK(k crypto.Key) string  { return t.H(hx(k[:])) }
 
-func (t *Tbl) Term() string {
-	var el []string
-	for _, s := range t.list {
-		b, _ := hex.DecodeString(s)
-		el = append(el, vh.BytesAsN(b))
-	}
-	return vh.List(el, "N")
-}
-
 func coqBool(b bool) string { return vh.Bool(b) }
+
+func nu(v uint64) string { return fmt.Sprintf("%d", v) }
+
+// plain byte list (numerals are read in N scope: the case term is wrapped in ( )%N)
+func plainBytes(b []byte) string {
+	if len(b) == 0 {
+		return "(@nil N)"
+	}
+	var el []string
+	for _, c := range b {
+		el = append(el, fmt.Sprintf("%d", c))
+	}
+	return "[" + strings.Join(el, ";") + "]"
+}
 
 func (w *World) coqDep(t *Tbl, d *DepSpec) string {
 	tx, _ := hex.DecodeString(d.TxID)
-	return fmt.Sprintf("{| d_chain := %s; d_tx := %s; d_index := %s |}", t.H(d.Chain), vh.Bytes(tx), vh.NU(d.Index))
+	return fmt.Sprintf("{| d_chain := %s; d_tx := %s; d_index := %s |}", t.H(d.Chain), plainBytes(tx), nu(d.Index))
 }
 
 func (w *World) coqSlot(t *Tbl, r SlotRef) string {
 	h, i := w.slot(r)
-	return fmt.Sprintf("(%s, %s)", t.HH(h), vh.NU(uint64(i)))
+	return fmt.Sprintf("(%s, %d)", t.HH(h), i)
 }
 
 func mintUnits(amount int64) string {
@@ -515,7 +572,7 @@ func (w *World) coqTxd(t *Tbl, i int) string {
 	case "deposit":
 		ins = "(InDeposit " + w.coqDep(t, s.Dep) + ")"
 	case "mint":
-		ins = fmt.Sprintf("(InMint %s %s)", vh.NU(s.Batch), mintUnits(s.Amount))
+		ins = fmt.Sprintf("(InMint %d %s)", s.Batch, mintUnits(s.Amount))
 	}
 	return fmt.Sprintf("{| t_hash := %s; t_ins := %s; t_outs := %s |}", t.HH(w.Hash[i]), ins, w.coqOuts(t, s.Outs))
 }
@@ -533,7 +590,7 @@ func (w *World) CoqOp(t *Tbl, op *OpSpec) string {
 	case "lockdeposit":
 		return vh.App("LockDeposit", w.coqDep(t, op.Dep), t.HH(w.caller(op)), coqBool(op.Fork))
 	case "lockmint":
-		return vh.App("LockMint", vh.NU(op.Batch), mintUnits(op.Amount), t.HH(w.caller(op)), coqBool(op.Fork))
+		return vh.App("LockMint", nu(op.Batch), mintUnits(op.Amount), t.HH(w.caller(op)), coqBool(op.Fork))
 	case "lockghost":
 		return vh.App("LockGhost", w.coqKeys(t, op.Keys), t.HH(w.caller(op)), coqBool(op.Fork))
 	case "validate":
@@ -543,11 +600,10 @@ func (w *World) CoqOp(t *Tbl, op *OpSpec) string {
 	case "writetx":
 		return vh.App("WriteTx", w.coqTxd(t, op.Tx))
 	case "finalize":
-		var el []string
-		for _, i := range op.Txs {
-			el = append(el, t.HH(w.Hash[i]))
+		if len(op.Txs) != 1 {
+			panic("finalize carries one transaction")
 		}
-		return vh.App("Finalize", vh.List(el, "N"))
+		return vh.App("Finalize", t.HH(w.Hash[op.Txs[0]]))
 	}
 	panic(op.Op)
 }
@@ -581,7 +637,7 @@ func (w *World) CoqDump(t *Tbl, d *Dump) (string, bool) {
 		p := strings.IndexByte(k, '/')
 		hs = k[:p]
 		fmt.Sscanf(k[p+1:], "%d", &i)
-		us = append(us, fmt.Sprintf("((%s, %s), %s)", t.H(hs), vh.NU(i), t.H(d.UTXO[k])))
+		us = append(us, fmt.Sprintf("((%s, %d), %s)", t.H(hs), i, t.H(d.UTXO[k])))
 	}
 	for _, k := range sorted(d.Dep) {
 		spec, found := w.depKey[k]
@@ -598,7 +654,7 @@ func (w *World) CoqDump(t *Tbl, d *Dump) (string, bool) {
 	sort.Slice(batches, func(i, j int) bool { return batches[i] < batches[j] })
 	for _, b := range batches {
 		amt, _ := new(big.Int).SetString(d.Mint[b].Amount, 10)
-		ms = append(ms, fmt.Sprintf("(%s, (%s, %s))", vh.NU(b), t.H(d.Mint[b].Tx), vh.Z(amt)))
+		ms = append(ms, fmt.Sprintf("(%d, (%s, %s))", b, t.H(d.Mint[b].Tx), vh.Z(amt)))
 	}
 	bk := func(m map[string]bool) []string {
 		var ks []string
@@ -620,4 +676,84 @@ func (w *World) CoqDump(t *Tbl, d *Dump) (string, bool) {
 	return fmt.Sprintf("{| o_utxo := %s; o_dep := %s; o_mint := %s; o_body := %s; o_final := %s; o_ghost := %s |}",
 		vh.List(us, "(slot * N)"), vh.List(ds, "(dep * N)"), vh.List(ms, "(N * (N * Z))"),
 		vh.List(bs, "N"), vh.List(fs, "N"), vh.List(gs, "(N * N)")), ok
+}
+
+// CoqDelta renders what changed between two dumps (records written with their
+// new value, bodies removed) and the family sizes after the call.
+func (w *World) CoqDelta(t *Tbl, pre, post *Dump) (string, bool) {
+	ok := true
+	sorted := func(m map[string]string) []string {
+		var ks []string
+		for k := range m {
+			ks = append(ks, k)
+		}
+		sort.Strings(ks)
+		return ks
+	}
+	var us, ds, ms, bs, bd, fs, gs []string
+	for _, k := range sorted(post.UTXO) {
+		if v, had := pre.UTXO[k]; had && v == post.UTXO[k] {
+			continue
+		}
+		p := strings.IndexByte(k, '/')
+		var i uint64
+		fmt.Sscanf(k[p+1:], "%d", &i)
+		us = append(us, fmt.Sprintf("((%s, %d), %s)", t.H(k[:p]), i, t.H(post.UTXO[k])))
+	}
+	for _, k := range sorted(post.Dep) {
+		if v, had := pre.Dep[k]; had && v == post.Dep[k] {
+			continue
+		}
+		spec, found := w.depKey[k]
+		if !found {
+			ok = false
+			continue
+		}
+		ds = append(ds, fmt.Sprintf("(%s, %s)", w.coqDep(t, spec), t.H(post.Dep[k])))
+	}
+	var batches []uint64
+	for b := range post.Mint {
+		if v, had := pre.Mint[b]; had && v == post.Mint[b] {
+			continue
+		}
+		batches = append(batches, b)
+	}
+	sort.Slice(batches, func(i, j int) bool { return batches[i] < batches[j] })
+	for _, b := range batches {
+		amt, _ := new(big.Int).SetString(post.Mint[b].Amount, 10)
+		ms = append(ms, fmt.Sprintf("(%d, (%s, %s))", b, t.H(post.Mint[b].Tx), vh.Z(amt)))
+	}
+	bk := func(m map[string]bool) []string {
+		var ks []string
+		for k := range m {
+			ks = append(ks, k)
+		}
+		sort.Strings(ks)
+		return ks
+	}
+	for _, k := range bk(post.Body) {
+		if !pre.Body[k] {
+			bs = append(bs, t.H(k))
+		}
+	}
+	for _, k := range bk(pre.Body) {
+		if !post.Body[k] {
+			bd = append(bd, t.H(k))
+		}
+	}
+	for _, k := range bk(post.Final) {
+		if !pre.Final[k] {
+			fs = append(fs, t.H(k))
+		}
+	}
+	for _, k := range sorted(post.Ghost) {
+		if v, had := pre.Ghost[k]; had && v == post.Ghost[k] {
+			continue
+		}
+		gs = append(gs, fmt.Sprintf("(%s, %s)", t.H(k), t.H(post.Ghost[k])))
+	}
+	sizes := fmt.Sprintf("[%d;%d;%d;%d;%d;%d]", len(post.UTXO), len(post.Dep), len(post.Mint), len(post.Body), len(post.Final), len(post.Ghost))
+	return fmt.Sprintf("{| x_utxo := %s; x_dep := %s; x_mint := %s; x_body := %s; x_body_del := %s; x_final := %s; x_ghost := %s; x_sizes := %s |}",
+		vh.List(us, "(slot * N)"), vh.List(ds, "(dep * N)"), vh.List(ms, "(N * (N * Z))"),
+		vh.List(bs, "N"), vh.List(bd, "N"), vh.List(fs, "N"), vh.List(gs, "(N * N)"), sizes), ok
 }
